@@ -116,6 +116,29 @@ async fn serve_metrics<IB: Body>(_req: Request<IB>) -> Result<Response<Full<Byte
         .unwrap())
 }
 
+/* Renders text as a JSON string (RFC 8259 section 7).  Rust's {:?} is close but not JSON: it writes
+ * control characters as \u{1} or \u{7f}, which no JSON parser accepts.
+ */
+fn json_string(text: &str) -> String {
+    const HEX: &[u8; 16] = b"0123456789abcdef";
+    let mut out = String::with_capacity(text.len() + 2);
+    out.push('"');
+    for c in text.chars() {
+        match c {
+            '"' => out.push_str("\\\""),
+            '\\' => out.push_str("\\\\"),
+            c if (c as u32) < 0x20 || c == '\u{7f}' => {
+                out.push_str("\\u00");
+                out.push(HEX[(c as usize >> 4) & 0xf] as char);
+                out.push(HEX[c as usize & 0xf] as char);
+            }
+            c => out.push(c),
+        }
+    }
+    out.push('"');
+    out
+}
+
 async fn serve_leases<IB: Body>(
     _req: Request<IB>,
     dhcp: &std::sync::Arc<crate::dhcp::DhcpService>,
@@ -139,7 +162,7 @@ async fn serve_leases<IB: Body>(
                 crate::dhcp::dhcppkt::parse_options(crate::pktparser::Buffer::new(&li.options))
                     .ok()
                     .and_then(|o| o.get_hostname())
-                    .map(|h| format!(", \"host-name\": {:?}", h))
+                    .map(|h| [", \"host-name\": ", json_string(&h).as_str()].concat())
                     .or_else(|| Some("".to_string()))
                     .unwrap(),
             ))
